@@ -71,15 +71,21 @@ pub fn check(c: &ParCase, st: &mut Stats) -> Result<(), Fail> {
     }
     let workers = 1 + (c.workers % 16) as usize;
     // half of the cases run with a tight capacity: just enough flow-table entries for every connection of the trace even if
-    // all of them reach one worker (HTTP: one entry per connection; TCP / TLS: at most one per direction and role) - `max_connections` is
+    // all of them reach one worker (HTTP: one entry per connection; TLS: one per direction; TCP: one per direction and role) - `max_connections` is
     // documented as a per-worker capacity, so nothing may be evicted and the sequential analyzer (capacity 1000) is the reference
     let tight = c.batch & 0x40 != 0;
     let n_conn = c.trace.conns.len().max(1);
-    let max_conn = if !tight { 1000 } else if kind == PoolKind::Http { n_conn } else { 4 * n_conn };
+    let max_conn = if !tight { 1000 } else { match kind { PoolKind::Http => n_conn, PoolKind::Tls => 2 * n_conn, PoolKind::Tcp => 4 * n_conn } };
     if tight {
         st.class("tight-capacity");
     }
-    let cfg = PoolCfg { workers, queue: frames.len() + 16, batch: 1 + (c.batch % 64) as usize, timeout_ms: 1 + (c.timeout_ms % 20) as u64, dispatchers: 1, perturb: Some(c.perturb), max_sleep_us: 200, max_conn };
+    // one case in twelve has a slow capture source: pauses of up to 4 ms between packets against a worker timeout of 1 ms, so that
+    // workers run into their idle timeout in the middle of connections (a legal schedule like any other)
+    let slow = c.perturb % 12 == 0;
+    if slow {
+        st.class("slow-dispatcher(worker-timeouts-inside-connections)");
+    }
+    let cfg = PoolCfg { workers, queue: frames.len() + 16, batch: 1 + (c.batch % 64) as usize, timeout_ms: if slow { 1 } else { 1 + (c.timeout_ms % 20) as u64 }, dispatchers: 1, perturb: Some(c.perturb), max_sleep_us: if slow { 4000 } else { 200 }, max_conn };
     let reference = sequential(kind, &pk);
     let run = run_pool(kind, &frames, &cfg, None, Some(clock)).map_err(|e| fail!("pool:new", "{e}"))?;
     if let Some(p) = &run.worker_panic {
@@ -259,7 +265,7 @@ pub fn check_api(c: &ParCase, st: &mut Stats) -> Result<(), Fail> {
     let workers = 1 + (c.workers % 8) as usize;
     let n_conn = c.trace.conns.len().max(1);
     // a capacity that differs from every other number of the configuration (a transposed argument shows), and holds the trace
-    let max_conn = if kind == PoolKind::Http { n_conn } else { 4 * n_conn };
+    let max_conn = match kind { PoolKind::Http => n_conn, PoolKind::Tls => 2 * n_conn, PoolKind::Tcp => 4 * n_conn };
     let queue = frames.len() + 16 + 2 * max_conn;
     let batch = 1 + (c.batch % 64) as usize;
     let timeout_ms = 1 + (c.timeout_ms % 20) as u64;
